@@ -60,9 +60,9 @@ PROPS = {
         'fewer than 2^15 ordered messages of a stream outstanding (SSN half-space; known finding D15); fewer than 2^31 TSNs/MIDs outstanding']},
     'C11': {'jobs': [REASM], 'assumptions': [
         'sum of len(userData) over all chunks ever pushed < 2^63 (uint64 counter / int conversion in subtractNumBytes)']},
-    'C02': {'jobs': [E2E_T], 'rule': E2E_RULE},
+    'C02': {'jobs': [E2E_T, ASND], 'rule': E2E_RULE},
     'C06': {'jobs': [E2E_PR, E2E_T, E2E_API, REASM, ASND], 'rule': E2E_RULE},
-    'C07': {'jobs': [E2E_PR], 'rule': E2E_RULE},
+    'C07': {'jobs': [E2E_PR, ASND], 'rule': E2E_RULE},
     'C08': {'jobs': [E2E_SD], 'rule': E2E_RULE},
     'C04': {'jobs': [HSD, E2E_HS, E2E_T], 'assumptions': [
         'theorems are about the L0 model Hs (two endpoints + packet histories); the model is replayed line by line against two real associations driven by a packet shuffler (TestVerifHandshake)',
